@@ -94,6 +94,23 @@ def corpus():
     add('collide:intenum', fixtures.IE.A)
     add('collide:empty-str', '')
     add('collide:empty-bytes', b'')
+    try:
+        import requests
+        resp = requests.Response()
+        resp.status_code = 200
+        resp._content = b'{"a": 1, "b": [1, 2, 3]}'
+        resp.headers['Content-Length'] = '24'
+        resp.url = 'http://example.invalid/x'
+        add('requests-response', resp)
+        resp2 = requests.Response()
+        resp2.status_code = 404
+        resp2._content = b'plain body'
+        resp2.headers['Content-Type'] = 'text/plain'
+        add('requests-response-2', resp2)
+        add('requests-prepared', requests.Request('POST', 'http://example.invalid/p', headers={'X': '1'}, json={'k': [1]}).prepare())
+        add('requests-request', requests.Request('GET', 'http://example.invalid/q', params={'a': 1}))
+    except Exception:     # noqa
+        pass
     cyc = [1]
     cyc.append({'self': cyc})
     add('cycle', cyc)
@@ -124,6 +141,10 @@ def setup_process():
     from prettyprinter import install_extras
     fixtures.register()
     install_extras(['dataclasses'])
+    try:
+        install_extras(['requests'], raise_on_error=True)
+    except Exception:     # noqa
+        pass
 
 
 def fresh_main():
@@ -199,6 +220,8 @@ def snap(v, memo=None):
         extra.append(('default_factory', repr(v.default_factory)))
     if isinstance(v, collections.ChainMap):
         return (tn, tuple(snap(m, memo) for m in v.maps))
+    if not isinstance(v, dict) and hasattr(v, 'items') and hasattr(v, 'keys') and type(v).__name__ == 'CaseInsensitiveDict':
+        return (tn, tuple((snap(k, memo), snap(x, memo)) for k, x in v.items()))
     if isinstance(v, dict) or type(v).__name__ == 'mappingproxy':
         return (tn, tuple((snap(k, memo), snap(x, memo)) for k, x in v.items()), tuple(extra))
     if isinstance(v, (list, tuple, collections.deque)):
@@ -307,7 +330,7 @@ def run(tier, seed):
     seen = {init: ()}
     frontier = [(init, ())]
     levels = []
-    maxdepth = 9 if tier == 'quick' else 16
+    maxdepth = 12 if tier == 'quick' else 20
     depth = 0
     while frontier and depth < maxdepth:
         groups = [frontier[i::core.NPROC] for i in range(core.NPROC)]
